@@ -1,6 +1,7 @@
 package main
 
 import (
+	"os"
 	"fmt"
 	"go/token"
 	"go/types"
@@ -617,6 +618,9 @@ func (fg *FG) analyzeLoops() {
 				if _, isDbg := in.(*ssa.DebugRef); isDbg {
 					continue
 				}
+				if _, isPhi := in.(*ssa.Phi); isPhi {
+					continue // a phi carries the position of the variable's declaration, not of the loop
+				}
 				if p := in.Pos(); p.IsValid() && (pos == token.NoPos || p < pos) {
 					pos = p
 				}
@@ -632,6 +636,9 @@ func (fg *FG) analyzeLoops() {
 	})
 	for i, h := range hs {
 		fg.loopOrd[h.idx] = i
+		if os.Getenv("GOVC_DEBUG") != "" {
+			fmt.Fprintf(os.Stderr, "loop %d: header b%d pos %v\n", i, h.idx, fn.Prog.Fset.Position(h.pos))
+		}
 	}
 }
 
